@@ -183,18 +183,19 @@ def h_reader_notations(m):
     Rd = importlib.import_module('regions.io.fits.read')
     import regions as R
     _shims(m)
-    if not m.sym:
-        return
     x0, x1, y0, y1 = m.real('x0'), m.real('x1'), m.real('y0'), m.real('y1')
     ang = m.real('ang')
-    Q = lambda vals, unit: u.Quantity(np.array(vals, dtype=object), unit, dtype=object)
+    if m.sym:
+        Q = lambda vals, unit: u.Quantity(np.array(vals, dtype=object), unit, dtype=object)
+    else:
+        Q = lambda vals, unit: u.Quantity(np.array(vals, dtype=float), unit)
     t = QTable()
     t['SHAPE'] = ['rectangle', 'rotrectangle', 'box', '!BOX']
     t['X'] = Q([[x0, x1], [x0, x1], [x0, 0], [x0, 0]], u.pix)
     t['Y'] = Q([[y0, y1], [y0, y1], [y0, 0], [y0, 0]], u.pix)
     wv, hv = m.pos('w'), m.pos('h')
     t['R'] = Q([[0, 0], [0, 0], [wv, hv], [wv, hv]], u.pix)
-    t['ROTANG'] = Q([0, ang, 0, 0], u.deg)
+    t['ROTANG'] = Q([0, ang, ang, 0], u.deg)            # a ROTANG cell in a 'box' row is not part of that notation
     m.assume(x0 < x1)
     m.assume(y0 < y1)
     regs = Rd.parse_table(t)
@@ -211,6 +212,29 @@ def h_reader_notations(m):
         r = regs[k]
         m.require(f'box #{k}: centre and full sizes', And(r.center.x == x0, r.center.y == y0, r.width == wv, r.height == hv))
     m.require("'!' marks exclusion, case-insensitively", regs[3].meta.get('include', 1) == 0 and regs[2].meta.get('include', 1) == 1)
+    a2 = regs[2].angle.to_value(u.deg)
+    m.require("'box' is unrotated whatever its ROTANG cell holds", chk.Eq(a2[()] if isinstance(a2, np.ndarray) else a2, 0))
+    # the same unrotated notations in a table that has no ROTANG column at all
+    t2 = QTable()
+    t2['SHAPE'] = ['box', 'rectangle', '!box', 'circle']
+    t2['X'] = Q([[x0, 0], [x0, x1], [x1, 0], [x0, 0]], u.pix)
+    t2['Y'] = Q([[y0, 0], [y0, y1], [y1, 0], [y0, 0]], u.pix)
+    t2['R'] = Q([[wv, hv], [0, 0], [hv, wv], [wv, 0]], u.pix)
+    with warnings.catch_warnings():
+        warnings.simplefilter('ignore')
+        regs2 = Rd.parse_table(t2)
+    m.require('a table without a ROTANG column: every unrotated row is read', len(regs2) == 4)
+    if len(regs2) == 4:
+        m.require('box without ROTANG column: centre and full sizes',
+                  And(regs2[0].center.x == x0, regs2[0].center.y == y0, regs2[0].width == wv, regs2[0].height == hv,
+                      regs2[2].center.x == x1, regs2[2].width == hv, regs2[2].meta.get('include', 1) == 0))
+        # parse -> serialise -> parse is a fixed point for foreign notations too
+        Wr = importlib.import_module('regions.io.fits.write')
+        again = Rd.parse_table(Wr._serialize_fits(R.Regions(regs2)))
+        m.require('fixed point from a foreign-notation table: same number and classes', len(again) == 4 and all(type(a) is type(b) for a, b in zip(again, regs2)))
+        if len(again) == 4:
+            for k_, (a, b) in enumerate(zip(regs2, again)):
+                _same_geom(m, f'fixed point #{k_}', a, b)
 
 
 def harnesses(tier):
